@@ -193,10 +193,10 @@ func checkC10(res *Result) {
 		})
 	}
 	noID := func(ff *FuncFacts, q siteQuery) bool {
-		// GetJSONLDId() result known nil
+		// GetJSONLDId() result known nil, or known not to hold an IRI
 		for _, ci := range callsIn(ff.fn) {
 			if c, ok := ci.(*ssa.Call); ok && c.Common().IsInvoke() && c.Common().Method.Name() == "GetJSONLDId" {
-				if q(func(s *factState) bool { return s.facts[fact{ff.canon(s, c), fNIL, ""}] }) {
+				if q(func(s *factState) bool { return idUnusableIn(ff, s, c) }) {
 					return true
 				}
 			}
@@ -242,7 +242,7 @@ func checkC10(res *Result) {
 		"baseActor.PostInboxScheme": {
 			{405, "federated protocol disabled", flagFalse("enableFederatedProtocol")},
 			{400, "unknown type (IsUnmatchedErr)", unmatched},
-			{400, "activity has no id", noID},
+			{400, "activity has no usable id (absent, or not an IRI)", noID},
 			{400, "ErrObjectRequired or ErrTargetRequired from PostInbox", sentinel},
 			{200, "accepted", always},
 		},
@@ -389,6 +389,16 @@ func checkC10(res *Result) {
 					}
 				}
 				if matched < 0 {
+					// a documented condition may be answered at more than one site
+					// (the test written as two ifs): a row already seen still matches
+					for i, row := range rows {
+						if row.code == st.code && row.why != "accepted" && row.why != "created" && row.why != "served" && row.pred(ff, st.q) {
+							matched = i
+							break
+						}
+					}
+				}
+				if matched < 0 {
 					var conds []string
 					for _, row := range rows {
 						if row.pred(ff, st.q) && row.why != "accepted" && row.why != "created" && row.why != "served" {
@@ -460,6 +470,20 @@ func checkC10(res *Result) {
 			}
 		}
 	}
+	// R8: usable id
+	res.Rule("C10-R8", "usable id: in PostInboxScheme every delegate call that receives the activity (PostInboxRequestBodyHook, AuthorizePostInbox, PostInbox, InboxForwarding) is reached only where the activity's id property is non-nil and known to hold an IRI (IsXMLSchemaAnyURI()/IsIRI() true, or Get()/GetIRI() non-nil); with R3/R4 the other outcomes of that test are answered 400")
+	if fn := p.MustFunc(res, "C10-R8", "baseActor.PostInboxScheme"); fn != nil {
+		ff := computeFacts(fn)
+		n := 0
+		for _, pat := range []string{"delegate.PostInboxRequestBodyHook", "delegate.AuthorizePostInbox", "delegate.PostInbox", "delegate.InboxForwarding"} {
+			for _, c := range findCalls(E, fn, pat) {
+				n++
+				ok, why := inboxIDUsableAt(ff, c)
+				res.check(ok, "C10-R8", fname(fn), p.pos(c), pat+" only with a usable activity id", why)
+			}
+		}
+		res.Count("C10-R8 delegate calls receiving the inbox activity", n, 4)
+	}
 	// R7: the outcome of each step reaches the place where it is turned into a status
 	res.Rule("C10-R7", "error discipline on the request path (entry points, deliver, sideEffectActor.PostInbox/PostOutbox, AuthorizePostInbox): no effect after a failed or untested step, and no failure (in particular ErrObjectRequired/ErrTargetRequired on its way to the 400) is swallowed into a success return")
 	addErrFlowObligations(res, p, E, "C10-R7", []string{"baseActor.PostInboxScheme", "baseActor.PostOutboxScheme", "baseActor.GetInbox", "baseActor.GetOutbox", "NewActivityStreamsHandlerScheme$1", "baseActor.deliver", "sideEffectActor.PostInbox", "sideEffectActor.PostOutbox", "sideEffectActor.AuthorizePostInbox"}, true)
@@ -471,7 +495,7 @@ func checkC10(res *Result) {
 		"the application's gate (or AuthorizePostInbox's 403) writes the status when it denies: the library cannot be checked for what application code writes",
 		"ResponseWriter faults (w.Write failing or short) are outside the property's fault model",
 		"CFG paths over-approximate feasible paths")
-	res.Undecided = []string{"'usable id': an id member that is present but not an IRI makes GetJSONLDId() non-nil (value-level question about the id codec)", "what the application writes on a denied request"}
+	res.Undecided = []string{"which strings xsd:anyURI accepts as an IRI (the id codec: url.Parse succeeds and a scheme is present)", "what the application writes on a denied request"}
 	res.Trusted = []string{"go/types, go/ssa (x/tools v0.29.0)", "e2_facts.go, c10.go transfer functions"}
 }
 
@@ -542,4 +566,76 @@ func checkLocation(res *Result, p *Pub, E *Effects, fn *ssa.Function, ff *FuncFa
 	if !found {
 		res.bad("C10-R3b", fname(fn), p.pos(created), "Location header set for the 201", "no Header().Set(\"Location\", …) found")
 	}
+}
+
+
+// The JSON-LD id property keeps an id member that is not an IRI (null, "", a
+// number, an object, a relative reference) as an 'unknown' value: the property
+// is non-nil and Get() is nil. "Usable" therefore needs both tests.
+var idIRIPredicates = []string{"IsXMLSchemaAnyURI", "IsIRI"}
+var idIRIGetters = []string{"Get", "GetIRI"}
+
+func idUnusableIn(ff *FuncFacts, s *factState, idCall *ssa.Call) bool {
+	n := ff.canon(s, idCall)
+	if s.facts[fact{n, fNIL, ""}] {
+		return true
+	}
+	for _, m := range idIRIPredicates {
+		if s.facts[fact{"get:" + n + "." + m, fFALSE, ""}] {
+			return true
+		}
+	}
+	for _, m := range idIRIGetters {
+		if s.facts[fact{"get:" + n + "." + m, fNIL, ""}] {
+			return true
+		}
+	}
+	return false
+}
+
+func idUsableIn(ff *FuncFacts, s *factState, idCall *ssa.Call) bool {
+	n := ff.canon(s, idCall)
+	if !s.facts[fact{n, fNONNIL, ""}] {
+		return false
+	}
+	for _, m := range idIRIPredicates {
+		if s.facts[fact{"get:" + n + "." + m, fTRUE, ""}] {
+			return true
+		}
+	}
+	for _, m := range idIRIGetters {
+		if s.facts[fact{"get:" + n + "." + m, fNONNIL, ""}] {
+			return true
+		}
+	}
+	return false
+}
+
+// inboxIDUsableAt: at instruction ins of PostInboxScheme some GetJSONLDId()
+// result is known non-nil and known to hold an IRI.
+func inboxIDUsableAt(ff *FuncFacts, ins ssa.Instruction) (bool, string) {
+	s := ff.at[ins]
+	if s == nil {
+		return true, "unreachable"
+	}
+	seen := false
+	nonNil := false
+	for _, ci := range callsIn(ff.fn) {
+		if c, ok := ci.(*ssa.Call); ok && c.Common().IsInvoke() && c.Common().Method.Name() == "GetJSONLDId" {
+			seen = true
+			if idUsableIn(ff, s, c) {
+				return true, ""
+			}
+			if s.facts[fact{ff.canon(s, c), fNONNIL, ""}] {
+				nonNil = true
+			}
+		}
+	}
+	if !seen {
+		return false, "the function does not test GetJSONLDId()"
+	}
+	if nonNil {
+		return false, "reached with an id property that is non-nil but not known to hold an IRI: an id member that is null, empty, a number, an object or a relative reference gives a non-nil property whose Get() is nil"
+	}
+	return false, "reachable with a nil id property"
 }
